@@ -91,6 +91,8 @@ def run_stamp(case):
                                 f"t={r.now}) has a smaller stamp", "C14.stamp_order/" + case["kind"])
             if s_w == s_served:
                 classes.add("equal stamps")
+                if F(r.now) != F(it["in"].now):
+                    classes.add("equal stamps, different arrival instants")
                 if dyadic and F(r.now) < F(it["in"].now):
                     raise Violation("C14.tie_earlier_first", f"equal stamps: packet {it['in'].snap[0]} (arrived {it['in'].now}) served "
                                                              f"before packet {r.snap[0]} (arrived {r.now})", "C14.tie_earlier_first/" + case["kind"])
@@ -98,6 +100,8 @@ def run_stamp(case):
                 disagree += 1
     if disagree:
         classes.add("stamp order overrides arrival order")
+    if any(a for a in case.get("ages", [])):
+        classes.add("creation time differs from arrival time")
     fn, m = schedlab.f2c_fn(case)
     if m and len(set(m.values())) < len(m):
         classes.add("many-to-one flow2class")
@@ -156,10 +160,23 @@ def strategy_for(kind):
                                                  sizes=st.sampled_from([64, 128, 256, 512, 1024, 1500, 3000, 100]))
                 else:
                     wl = schedlab.sched_workload(tb["flows"], 40 if big else 26, exact=exact)
-                return st.tuples(rate, wl).map(lambda t: {"kind": kind, "exact": exact, "static": static, "rate": t[0],
-                                                          "table": tb["table"], "f2c": tb["f2c"], "wl": t[1]})
+                ages = st.lists(st.sampled_from([0, 0, 0.5, 2, 0.25, 8]), min_size=1, max_size=7)
+                return st.tuples(rate, wl, ages).map(lambda t: {"kind": kind, "exact": exact, "static": static, "rate": t[0],
+                                                                "table": tb["table"], "f2c": tb["f2c"], "wl": t[1], "ages": t[2]})
             return kgen.weighted([(dom(True, False), 4), (dom(True, True), 2), (dom(False, False), 1)])
-        return st.integers(2, 5).flatmap(build).flatmap(with_wl)
+        general = st.integers(2, 5).flatmap(build).flatmap(with_wl)
+        if kind != "WFQ":
+            return general
+
+        def ties(n):
+            """many equal stamps among packets that arrive at different instants: equal weights, sizes that are multiples of 64, a
+            long first transmission during which the others arrive on a 1/128 grid; later arrivals were created earlier"""
+            arr = st.lists(st.tuples(st.integers(0, 32), st.integers(0, n - 1), st.sampled_from([64, 128, 192, 256])), min_size=4, max_size=14)
+            return arr.map(lambda xs: {
+                "kind": "WFQ", "exact": True, "static": False, "rate": 8192, "table": [[f, 1] for f in range(n)], "f2c": None,
+                "wl": [[0, 0, 2048, None, 0]] + sorted([[k / 128, f, sz, None, 0] for k, f, sz in xs], key=lambda w: w[0]),
+                "ages": [0] + [w * 4 for w in range(1, len(xs) + 1)]})
+        return kgen.weighted([(general, 6), (st.integers(2, 4).flatmap(ties), 1)])
     return strat
 
 
@@ -177,7 +194,8 @@ PROP = Property(
           "where stamp order and arrival order disagree."),
     facets=[Facet("WFQ", strategy_for("WFQ"), run_stamp, quick=900, thorough=6000,
                   essential=["stamp order overrides arrival order", "equal stamps", "idle period resets virtual time",
-                             "static backlog fairness checked", "many-to-one flow2class"]),
+                             "static backlog fairness checked", "many-to-one flow2class",
+                             "equal stamps, different arrival instants", "creation time differs from arrival time"]),
             Facet("VC", strategy_for("VC"), run_stamp, quick=700, thorough=5000,
                   essential=["stamp order overrides arrival order", "equal stamps", "many-to-one flow2class"])],
     assumptions=["a class is backlogged while it has packets waiting or in transmission",
